@@ -440,6 +440,28 @@ def run(ctx):
     no_wrap(ctx)
     import layout as _layout
     _layout.tile_words(ctx, 'Q5')          # the tile ids that lookup, slice and image all consume
+    # loading refuses a tilemap only for a tile id that really is >= the tile count (no stricter test: seed C08-n compared
+    # `max().unwrap_or(0)`, which refuses an empty map on an empty tileset), every tileset chunk is decoded wherever it stands
+    # (seed C08-m kept only those of frame 0), and no new refusal has appeared in the loader
+    import common as _common
+    import totality as _T
+    import C01 as _c01
+    _common.rejection_inventory(ctx, 'Q1')
+    _c01.dispatch_always_decodes(ctx, 'Q4')
+    vt = ctx.anchor('asefile::tilemap::TilemapData::validate_tile_ids')
+    if vt is not None:
+        nrej = 0
+        for sw, facts, cond in _T.rejections(vt):
+            nrej += 1
+            okr = False
+            for op, l_, r_ in facts:
+                if op == 'Ge' and is_param(strip_casts(r_), 2):
+                    ids = [a_ for a_ in alts(l_)]
+                    okr = bool(ids) and all((a_[0] == 'call' and a_[1].endswith('Tile::id')) or (a_[0] == 'field' and a_[2] == 'id') or
+                                            (a_[0] == 'call' and a_[1] == 'std::iter::Iterator::max') for a_ in ids)
+            ctx.inst('Q1', 'validate_tile_ids#refusal', okr, 'validate_tile_ids refuses under %s; must be `a tile id of the map >= tile_count` and nothing else '
+                     '(no default standing in for "no tile")' % show(cond)[:100], vt.blocks[sw]['term'].get('span'), key=vt.name + '|Q1|refusal')
+        ctx.floor('refusals in validate_tile_ids', nrej, 1)
     # the tileset chunk itself: tile count, tile size and the embedded pixels are read where the format puts them - also when the chunk
     # additionally links an external file (seed C08-j skipped the embedded tiles then and the sprite no longer loads)
     import spec as _SP
